@@ -212,6 +212,38 @@ def entry (r : Request) (i j : Nat) : Int :=
 def gemm (r : Request) : List Int :=
   (List.range r.m).flatMap fun i => (List.range r.n).map fun j => entry r i j
 
+/-! ## Argument checks of `gemm_impl` (`lib.rs`), in the code's order -/
+
+inductive GemmErr where
+  | kSizeMismatch | wrongQuantParamSize | outputSizeMismatch
+  deriving DecidableEq, Repr
+
+/-- `a.cols() != b.rows()` → `KSizeMismatch`; zero-point vectors must have one entry per row of A /
+column of B → `WrongQuantParamSize`; the output slice must hold `rows·cols` elements →
+`OutputSizeMismatch` (no bias is used by the int8 operators). -/
+def checkGemmArgs (aRows aCols bRows bCols : Nat) (zaLen zbLen : Option Nat) (outLen : Nat) :
+    Except GemmErr Unit :=
+  if aCols != bRows then .error .kSizeMismatch
+  else if zaLen.any (· != aRows) then .error .wrongQuantParamSize
+  else if zbLen.any (· != bCols) then .error .wrongQuantParamSize
+  else if outLen != aRows * bCols then .error .outputSizeMismatch
+  else .ok ()
+
+/-- A request whose tensors have the sizes its dimensions announce (what `gemm_impl` accepts). -/
+structure Request.WF (r : Request) : Prop where
+  a_len : r.a.length = r.m * r.k
+  b_len : r.b.length = r.k * r.n
+  za_len : ∀ l, r.za = some l → l.length = r.m
+  zb_len : ∀ l, r.zb = some l → l.length = r.n
+  c0_len : ∀ l, r.c0 = some l → l.length = r.m * r.n
+
+/-- `gemm` with the argument checks: errors instead of silently defaulting. -/
+def gemmChecked (r : Request) (outLen : Nat) : Except GemmErr (List Int) :=
+  match checkGemmArgs r.m r.k (if r.n = 0 then r.k else r.b.length / r.n) r.n
+      (r.za.map (·.length)) (r.zb.map (·.length)) outLen with
+  | .error e => .error e
+  | .ok () => .ok (gemm r)
+
 /-- Inputs are in the reduced range documented by `ReducedRangeRng`: all `a ∈ [0,127]` or all
 `b ∈ [−64,63]`. -/
 def inReducedRange (a b : List Int) : Bool :=
